@@ -116,9 +116,10 @@ def coq_eval(cases_obs, want_sem=True):
             # (the reference semantics still gets a modest budget: a script it finishes in a few hundred units and the
             # implementation does not finish at all is a script that does not end)
             b += 'Eval vm_compute in (sem_case %d %s %s).\n' % (LONG_SEM_FUEL if long_run else SEM_FUEL, case.coq, w)
+            b += 'Eval vm_compute in (covered_case %s).\n' % case.coq
         bodies.append(b)
         idxs.append(i)
-    per = 4 if want_sem else 3
+    per = 5 if want_sem else 3
     packed, groups = [], []
     for k in range(0, len(bodies), 12):
         packed.append(''.join(bodies[k:k + 12]))
@@ -224,6 +225,10 @@ def compare_all(ctx, prop, cases, want_sem=True, do_shrink=True):
             continue
         impl = (obs['status'], obs['events'])
         summary['events'] += len(obs['events'])
+        if want_sem and len(r) >= 5:
+            # inside the fragment of the forward-simulation theorem: reference semantics and machine model agree by proof
+            summary['in_theorem_fragment' if r[4] == 'covered' else 'outside_theorem_fragment'] = \
+                summary.get('in_theorem_fragment' if r[4] == 'covered' else 'outside_theorem_fragment', 0) + 1
         if obs['status'].startswith('ABORT'):
             summary['aborting'] += 1
         # A: compiler
